@@ -377,6 +377,7 @@ class ExprMixin:
         lo = self.ev(sl.lower, st, fr) if sl.lower is not None else None
         hi = self.ev(sl.upper, st, fr) if sl.upper is not None else None
         step = self.ev(sl.step, st, fr) if sl.step is not None else None
+        lo_raw, hi_raw = lo, hi
         lo, hi, step = concrete(lo), concrete(hi), concrete(step)
         if isinstance(base, (tuple, list, str)):
             if any(x is not None and not isinstance(x, int) for x in (lo, hi, step)):
@@ -384,6 +385,14 @@ class ExprMixin:
             return base[slice(lo, hi, step)]
         if isinstance(base, Obj) and base.kind in ('arr', 'seq') and lo is None and hi is None and step is None:
             return base      # full view / copy: same contents (aliasing of a copy is not modelled)
+        if isinstance(base, Obj) and (base.kind is None or base.ndim == 1) and step is None:
+            # a[lo:hi] of a 1-D array is kept symbolic in the same way (its contents are not expanded)
+            # opaque sequence-like object (e.g. a text line): the slice is an uninterpreted function of (object, lower, upper)
+            NONE_BOUND = 10 ** 9
+            lo_t = to_int(lo_raw if lo_raw is not None else -NONE_BOUND)
+            hi_t = to_int(hi_raw if hi_raw is not None else NONE_BOUND)
+            f = z3.Function('slice_of', Ref, z3.IntSort(), z3.IntSort(), Ref)
+            return Obj(f(base.ref, lo_t, hi_t), base.cls)
         raise Unsupported('slice of %r' % (base,))
 
     def normalise_index(self, st, base, i, n, fr, what):
